@@ -3,6 +3,7 @@ from __future__ import annotations
 
 import ast
 
+from ..inline import inlined
 from ..model import AnalysisError, FuncInfo, Program
 from ..report import Run
 from ..symex import Evaluator, Obj, Sym, show
@@ -22,7 +23,7 @@ G = [
     ("QueryBuilder.do_update", {"_on_conflict_do_nothing"}, "QueryException", {"_on_conflict_do_updates"}, {}),
     ("QueryBuilder.do_nothing", {"_on_conflict_do_updates"}, "QueryException", {"_on_conflict_do_nothing"}, {}),
     ("QueryBuilder.where", {"_on_conflict_do_nothing"}, "QueryException", {"_on_conflict_wheres", "_on_conflict_do_update_wheres"}, {"nested": True}),
-    ("QueryBuilder.where", set(), "QueryException", set(), {"nested": True, "else_branch": True, "label": "fieldless ON CONFLICT WHERE"}),
+    ("QueryBuilder.where", {"_on_conflict_fields"}, "QueryException", set(), {"nested": True, "label": "fieldless ON CONFLICT WHERE"}),
     ("QueryBuilder._on_conflict_sql", {"_on_conflict_fields"}, "QueryException", set(), {"nested": True, "label": "no handler"}),
     ("QueryBuilder._on_conflict_sql", {"_on_conflict_do_updates", "_on_conflict_fields"}, "QueryException", set(), {"label": "fieldless do update"}),
     ("QueryBuilder._select_field_str", {"_from"}, "QueryException", {"_selects"}, {}),
@@ -154,7 +155,7 @@ def check(program: Program, run: Run) -> None:
             cs = cs[1:] if len(cs) > 1 else []
         return cs
     for qual, attrs, exc, protects, opt in G:
-        f = program.func(qual)   # vanished anchor -> AnalysisError
+        f = inlined(program, program.func(qual))   # vanished anchor -> AnalysisError; private helpers / local functions inlined
         guards = collect_guards(f)
         label = opt.get("label") or ",".join(sorted(attrs))
         cands = select(guards, attrs, exc, opt)
@@ -237,7 +238,7 @@ def check(program: Program, run: Run) -> None:
         run.ob("C14/R2 source reaches the availability set", "do_join:_joins", ok, where=dj.loc())
         if not ok:
             run.finding("C14/availability-missing:QueryBuilder.do_join:_joins", "do_join does not pass the existing joins to join.validate", where=dj.loc(), rule="R2")
-    jv = program.func("JoinOn.validate")
+    jv = inlined(program, program.func("JoinOn.validate"))
     params = jv.params[1:]
     src_text = {}
     for s in ast.walk(jv.node):
